@@ -1,6 +1,5 @@
 import Mp.EscProofs
 import Mp.EscBridge
-import Mp.FactChecks2
 import Mp.RoundTrip
 import Mp.RoundTripGo
 /-! C09 — property theorems (proved in the imported modules; statements are checked there, axioms audited here). -/
@@ -11,8 +10,6 @@ import Mp.RoundTripGo
 #print axioms Mp.escape_eq
 #print axioms Mp.model_literal_roundtrip
 #print axioms Mp.model_unescape_order_independent
-#print axioms Mp.FactChecks.model_unescape_rules
-#print axioms Mp.FactChecks.model_escape_rules
 #print axioms Mp.scanIdent_run
 #print axioms Mp.scan_ident
 #print axioms Mp.parseFunc_call0
